@@ -78,6 +78,25 @@ fn main() {
 }
 
 thread_local! {
+    static MARK: std::cell::RefCell<Option<std::fs::File>> = std::cell::RefCell::new(
+        std::env::var("PVH_MARK").ok().and_then(|p| std::fs::File::create(p).ok()));
+}
+
+/// Records the case about to be run (file named by env PVH_MARK), so that a run that dies with an
+/// abort no `catch_unwind` can intercept (stack overflow on a cyclic term, allocation failure) still
+/// names its input.
+pub fn mark(line: &str) {
+    use std::io::{Seek, SeekFrom, Write};
+    MARK.with(|m| {
+        if let Some(f) = m.borrow_mut().as_mut() {
+            let _ = f.seek(SeekFrom::Start(0));
+            let _ = f.set_len(0);
+            let _ = f.write_all(line.as_bytes());
+        }
+    });
+}
+
+thread_local! {
     pub static LAST_PANIC: std::cell::RefCell<String> = std::cell::RefCell::new(String::new());
 }
 
